@@ -123,6 +123,8 @@ def gen_session(rng, big=False):
         names[rng.randrange(1, k)] = rng.choice(NET_USERS)
     session = {"problem": prob, "problem2": None}
     style = rng.choice(["plain", "plain", "edits", "edits", "results", "faults", "two-problems", "repeat"])
+    if style == "edits" and rng.random() < 0.6:
+        names = [names[-1]] * k         # the same placer before and after the caller's edits (TWINS in time)
     import json
     cur = [json.loads(json.dumps(prob))]
     if style == "two-problems":
@@ -863,8 +865,8 @@ def _run_sessions(ctx):
         "sessions: a placer's arguments modified in place are reported only through their effect on later results "
         "(the property text speaks about what the placers return)"]
     rng = ctx.rng
-    n = ctx.scale(250, 6000)
-    m = ctx.scale(40, 800)
+    n = ctx.scale(250, 3500)
+    m = ctx.scale(40, 500)
     if ctx.extended:
         n, m = n * 4, m * 4
     sessions = [gen_session(rng, big=(not ctx.quick) and rng.random() < 0.1) for _ in range(n)]
